@@ -149,16 +149,17 @@ def install(I):
 
     @reg('print')
     def _print(I, a, k):
-        out = I.ghost.setdefault('Out', [])
+        out = I.ghost.setdefault('Out', PyList()).items
         sep = k.get('sep', ' ')
         end = k.get('end', '\n')
         first = True
         for x in a:
-            if not first:
-                out.append(('lit', sep))
-            out.append(('str', x))
+            if not first and sep != '':
+                out.append(sep)
+            out.append(x)           # stands for str(x)
             first = False
-        out.append(('lit', end))
+        if end != '':
+            out.append(end)
         return None
 
     @reg('sorted')
@@ -784,12 +785,9 @@ def format_symbolic(I, fmt, a, k):
         if lo:
             return CharStr([z3.simplify(48 + n / 10), z3.simplify(48 + n % 10)])
         raise _interp_mod().Unsupported("'{:02d}'.format outside 0..99")
-    fn = I.ghost.get('format_model')
-    if fn is not None:
-        r = fn(I, fmt, a, k)
-        if r is not None:
-            return r
-    return I.opaque_str('fmt')
+    from .values import Struct
+    # str.format is the specification itself: an uninterpreted, deterministic function of its arguments
+    return Struct('str.format', (fmt, tuple(a), tuple(sorted(k.items(), key=lambda kv: kv[0]))))
 
 
 # ---------------------------------------------------------------------------- modules
